@@ -66,6 +66,10 @@ type PFCPConn struct {
 	hbReset     chan struct{}
 	hbCtxCancel context.CancelFunc
 
+	// shutdownOnce makes Shutdown idempotent: it can be reached from the reader,
+	// the heartbeat monitor and Serve at about the same time.
+	shutdownOnce sync.Once
+
 	pendingReqs sync.Map
 }
 
@@ -231,6 +235,10 @@ func (pConn *PFCPConn) Serve() {
 
 // Shutdown stops connection backing PFCPConn.
 func (pConn *PFCPConn) Shutdown() {
+	pConn.shutdownOnce.Do(pConn.shutdownConn)
+}
+
+func (pConn *PFCPConn) shutdownConn() {
 	close(pConn.shutdown)
 
 	if pConn.hbCtxCancel != nil {
